@@ -1,0 +1,5 @@
+//go:build !verif
+
+package nitro
+
+func verifYield(point string) {}
